@@ -19,6 +19,9 @@ RULE = ('random literal terms: unquoted atoms, quoted atoms over arbitrary Unico
         'hash of the literal source text')
 ASSUMPTIONS = ['the renderer (term -> source text) is the inverse of the documented literal syntax',
                'to_python is not called on partial lists (unspecified)']
+RULE_ADDED = (' Added after the rounds of independently written changes (DESIGN.md 12.2): ' +
+              'a quarter of the cases compiled through the file API; CR, CR LF, NEL, BOM, decomposed and NFKC-unstable characters; the literal next to its confusable twin in one clause; to_python of a caller-built term (makelist / listpair / functor around its own variables) at every answer and after the query.')
+RULE = RULE + RULE_ADDED
 
 
 def plan(tier, seed):
